@@ -24,7 +24,6 @@ import (
 	"math/rand"
 	"net/http"
 	"os"
-	"sort"
 	"strings"
 	"time"
 
@@ -1031,14 +1030,6 @@ func reverseBlocks(bs []ipld.Block) []ipld.Block {
 	return out
 }
 
-// lookup links worth asking for: the fixed ones, plus every report key of the root block that
-// parses as a CID (the harness decodes nothing else of the body)
-func bytesLookups(fixed []ipld.Link) []ipld.Link {
-	return fixed
-}
-
-var _ = sort.Strings
-var _ = io.EOF
 
 // ---------------------------------------------------------------------------
 // C15: every scripted reply of the C15 generator, and the bodies above, through the byte-level model
@@ -1103,9 +1094,10 @@ func (b *bytesC15) observe(i int, rp *reply) {
 }
 
 func (b *bytesC15) finish(dir string) error {
+	// about 250 cases per file (16 files at least): Coq's time per file grows faster than linearly with its size
 	shards := 16
-	if b.tier == "thorough" {
-		shards = 64
+	if n := len(b.set.cases) / 250; n > shards {
+		shards = n
 	}
 	return b.set.finish(dir, shards)
 }
@@ -1250,8 +1242,8 @@ func bytesC20(o genOpts, e *c20Env) error {
 		set.add(c)
 	}
 	shards := 8
-	if o.tier == "thorough" {
-		shards = 48
+	if n := len(set.cases) / 250; n > shards {
+		shards = n
 	}
 	return set.finish(o.out, shards)
 }
@@ -1294,8 +1286,8 @@ func bytesC11(o genOpts, raws [][]byte, doneLines []string) error {
 		set.add(c)
 	}
 	shards := 8
-	if o.tier == "thorough" {
-		shards = 48
+	if n := len(set.cases) / 250; n > shards {
+		shards = n
 	}
 	return set.finish(o.out, shards)
 }
